@@ -69,7 +69,7 @@ pub fn has_block_reference_cycle(lib: &[(String, String)]) -> bool {
     let mut refs: HashMap<String, Vec<String>> = HashMap::new();
     for (k, t) in lib {
         let key = Key::from_file_name(k).to_string();
-        let dir = Key::from_file_name(k).parent();
+        let dir = crate::oracle::md::dir_of(k);
         for l in md::read(t, &dir).links {
             if l.block_level {
                 refs.entry(key.clone()).or_default().push(md::resolve(&l.dest, &dir));
